@@ -150,6 +150,30 @@ fn run_job_inner(e: &Engine, j: &Job) -> Result<Vec<f64>, String> {
         }
         out.extend_from_slice(&buf[..r]);
     }
+    // a live generator is a value: every other job hands it over to a thread that has never
+    // rendered anything (freshly spawned) for two more steps and the remainder
+    if j.steps_before_finish % 2 == 1 {
+        let rest = std::thread::scope(|s| {
+            s.spawn(move || {
+                let mut tail = Vec::new();
+                for _ in 0..2 {
+                    let r = g.generate_step(&mut buf);
+                    if r == 0 {
+                        break;
+                    }
+                    tail.extend_from_slice(&buf[..r]);
+                }
+                tail.extend(g.generate_all());
+                tail
+            })
+            .join()
+        });
+        match rest {
+            Ok(t) => out.extend(t),
+            Err(_) => return Err("the thread that took over the live generator panicked".into()),
+        }
+        return Ok(out);
+    }
     out.extend(g.generate_all());
     Ok(out)
 }
@@ -320,11 +344,24 @@ impl Prop for SharedEngine {
         let private = engine.clone();
         let mut reference = Vec::with_capacity(c.jobs.len());
         for j in &c.jobs {
+            // the reference of a job is the ONE-SHOT waveform of its labels computed here, on this
+            // thread: however a job obtains its samples (whole call, live generator stepped in
+            // chunks, generator handed to another thread half-way), they must be these
+            let oneshot = match catch(|| private.synthesize(j.labels.as_slice())) {
+                Ok(Ok(w)) => w,
+                Ok(Err(e)) => fail!("synthesize-error", "job failed: {}", e),
+                Err(p) => fail!(p.signature(), "job panicked: {}", p.msg),
+            };
             match catch(|| run_job(&private, j)) {
-                Ok(Ok(w)) => reference.push(w),
+                Ok(Ok(w)) => {
+                    if let Some(i) = bits_equal(&w, &oneshot) {
+                        fail!("job-differs-from-one-shot", "a job run alone (chunk {}, {} steps before finishing{}) differs from the one-shot waveform of its labels at sample {} (lengths {} vs {})", j.chunk, j.steps_before_finish, if j.chunk > 0 && j.steps_before_finish % 2 == 1 { ", live generator handed to a fresh thread" } else { "" }, i, w.len(), oneshot.len());
+                    }
+                }
                 Ok(Err(e)) => fail!("synthesize-error", "job failed: {}", e),
                 Err(p) => fail!(p.signature(), "job panicked: {}", p.msg),
             }
+            reference.push(oneshot);
             ensure!(observe(&private) == before, "engine-mutated", "a synthesis call changed the engine's observable settings");
         }
         // (b) repeat on the original, with a half-consumed live generator in between
